@@ -784,6 +784,8 @@ class Exec:
 
     def _contains(self, cont, item, st):
         ty = cont.ty
+        if isinstance(ty, T.Fun) and cont.extra and cont.extra[0] in ('mapview', 'treeview') and cont.extra[1] == 'keys':
+            return self._contains(cont.extra[2], item, st)      # `k in d.keys()`
         if isinstance(ty, T.Opt):
             self.safety(st, z3.Not(ty.is_none(cont.t)), 'in-on-None')
             return self._contains(SV(ty.inner, ty.get(cont.t)), item, st)
@@ -1030,9 +1032,23 @@ class Exec:
                 cond = z3.And(cond, truthy(self.ev(c, st2)))
             self.guards.append(cond)
             want_val = want.val if isinstance(want, T.Map) else None
+            n_pc = len(st2.pc)
+            heap_before = dict(st2.heap)
             v = self.ev(node.value, st2, want_val)
         finally:
             self.guards = saved
+        new_facts = st2.pc[n_pc:]
+        if new_facts:
+            # facts assumed while evaluating the value (postconditions of callees): only sound to keep if the
+            # value does not depend on the comprehension variable and nothing on the heap was modified
+            if any(not (st2.heap[k_] is heap_before.get(k_) or st2.heap[k_].eq(heap_before.get(k_, st2.heap[k_]))) for k_ in st2.heap) \
+                    or len(st2.heap) != len(heap_before):
+                raise OutOfSubset('dict comprehension whose value expression modifies the heap')
+            names = {kname} | ({vname} if vname else set())
+            for sub in ast.walk(node.value):
+                if isinstance(sub, ast.Name) and sub.id in names and isinstance(node.value, ast.Call):
+                    raise OutOfSubset('dict comprehension calling a function on the comprehension variable')
+            st.pc.extend(new_facts)
         rty = T.Map(m.ty.key, v.ty)
         newhas = z3.Lambda([k], z3.And(has, cond))
         newval = z3.Lambda([k], z3.If(z3.And(has, cond), v.t, v.ty.dflt()))
